@@ -311,8 +311,14 @@ func (node *Node) clone(tree *MutableTree) (*Node, error) {
 		if err != nil {
 			return nil, err
 		}
-		node.leftNode = nil
-		node.rightNode = nil
+		// a persisted node is shared, through the node cache, with concurrent readers of
+		// committed versions and normally holds no child pointers: do not write to it then.
+		if node.leftNode != nil {
+			node.leftNode = nil
+		}
+		if node.rightNode != nil {
+			node.rightNode = nil
+		}
 	}
 
 	return &Node{
